@@ -170,7 +170,7 @@ def judge_c20(case):
             continue
         reach.probe("fault-left-the-solver:" + f["exc"])
         outcome = obs.get("status") or ("exc:" + str(obs.get("exc")))
-        reach.nontrivial.add((f["fault"], f.get("kind"), f["exc"], evs[-1].get("method"), outcome, bool(rec.get("reclimit")), len(evs)))
+        reach.nontrivial.add((f["fault"], f.get("kind"), f.get("where"), f["exc"], evs[-1].get("method"), outcome, bool(rec.get("reclimit")), len(evs)))
         ok = obs.get("status") == "failed" or obs.get("exc") == f["exc"]
         if not ok:
             findings.append(_finding("C20", "fault-outcome", rec, f"injected {f['exc']} at {f['fault']} left the solver, but solve gave {outcome}"))
